@@ -519,6 +519,7 @@ fn cmd_check(args: &[String]) -> i32 {
     let mut exit = 0;
     let mut n_viol = 0i64;
     let mut known_hit: Vec<String> = Vec::new();
+    let mut more_sigs: Vec<String> = Vec::new();
     let _ = std::fs::create_dir_all(format!("{}/replays", verif_dir()));
     for (sig, (run, v)) in &found {
         if let Some(k) = known_match(&known, &prop, sig) {
@@ -530,6 +531,12 @@ fn cmd_check(args: &[String]) -> i32 {
         }
         // new violation: minimise in a child, then confirm the replay file in a fresh process
         n_viol += 1;
+        if n_viol > 6 {
+            // enough replay files for one batch; the remaining signatures are only counted
+            more_sigs.push(sig.clone());
+            exit = exit.max(1);
+            continue;
+        }
         let safe: String = sig.chars().map(|c| if c.is_alphanumeric() { c } else { '_' }).take(60).collect();
         let path = format!("{}/replays/{}-{}-{}-{}.json", verif_dir(), prop, seed, run, safe);
         let is_proc = sig.contains("|watchdog|") || sig.contains("|process_killed|");
@@ -568,6 +575,9 @@ fn cmd_check(args: &[String]) -> i32 {
                 exit = 2;
             }
         }
+    }
+    if !more_sigs.is_empty() {
+        println!("{} further violation signatures of property {} without a replay file: {}", more_sigs.len(), prop, more_sigs.iter().take(12).cloned().collect::<Vec<_>>().join("; "));
     }
     // ---- evidence
     let wall = t0.elapsed().as_secs_f64();
